@@ -411,6 +411,47 @@ Example c15_tarfs_open_example :
   tarfs_open_name es "l" = Err /\ tarfs_open_name es "d/" = Ok "d/"%string /\ tarfs_open_name es "nope" = Err.
 Proof. vm_compute. repeat split. Qed.
 
+(* ---- final round: the twelve `for { x, err := r.Next() … }` loops over tar entries that goextract finds by
+   shape under pkg/ (IndexFromArchive, parseRepositoryIndex, installAPKFiles, updateScriptsTar, ParsePackageInfo,
+   controlValue, checkSums, NewAPKFS, seekTo, tarfs.New, BuildIndex, cpio.FromLayer). At every one of them an error
+   of Next (io.EOF included) leaves the loop; so for EVERY tar reader whose Next hands over an entry only after
+   reading its 512-byte header (archive/tar's contract: [consumes], checked on the hostile corpus in the harness),
+   every loop body and every stream length n, the loop ends — a result or an error — within n / 512 + 1 turns. *)
+Theorem c15_tar_loops_terminate : forall site next body n,
+  In site tar_next_loops -> consumes next -> Returns (site_loop site next body n).
+Proof. exact site_loop_returns. Qed.
+Print Assumptions c15_tar_loops_terminate.
+Theorem c15_tar_loop_turns_bounded : forall next body le fuel n k,
+  consumes next -> tar_loop next body le true fuel n 0 = Ok k -> (k <= S (N.to_nat (n / tar_block)))%nat.
+Proof. intros next body le fuel n k C H. exact (tar_loop_turns next body le C fuel n 0%nat k H). Qed.
+Print Assumptions c15_tar_loop_turns_bounded.
+(* what the pin is for (HYPOTHETICAL shape, no site has it): a loop that goes on after an error of Next turns
+   forever, because the reader hands it the same error again *)
+Theorem c15_tar_loop_ignoring_errors_hypothetical : forall body le fuel n,
+  tar_loop (fun _ => TErr) body le false fuel n 0 = OutOfFuel.
+Proof. intros. apply tar_loop_ignoring_errors_diverges. Qed.
+Print Assumptions c15_tar_loop_ignoring_errors_hypothetical.
+Theorem c15_tar_loops_pinned :
+  map (fun s => (fst s, snd (snd s))) tar_next_loops =
+  [("pkg/apk/apk/apkindex.go:IndexFromArchive#1", true); ("pkg/apk/apk/index.go:parseRepositoryIndex#1", true);
+   ("pkg/apk/apk/install.go:APK.installAPKFiles#1", true); ("pkg/apk/apk/installed.go:APK.updateScriptsTar#1", true);
+   ("pkg/apk/apk/package.go:ParsePackageInfo#1", true); ("pkg/apk/apk/util.go:controlValue#1", true);
+   ("pkg/apk/expandapk/expandapk.go:checkSums#1", true); ("pkg/apk/fs/apkfs.go:NewAPKFS#1", true);
+   ("pkg/apk/fs/apkfs.go:apkFSFile.seekTo#1", true); ("pkg/apk/internal/tarfs/tarfs.go:New#1", true);
+   ("pkg/build/oci/index.go:BuildIndex#1", true); ("pkg/cpio/layer.go:FromLayer#1", true)]%string.
+Proof. reflexivity. Qed.
+Print Assumptions c15_tar_loops_pinned.
+Example c15_tar_loop_example :
+  let next := fun n => if (n =? 0)%N then TEof else if (n <? 512)%N then TErr else TEntry (n - 512)%N in
+  consumes next /\ tar_loop next (fun _ => true) true true (tar_fuel 1536) 1536 0 = Ok 4%nat /\
+  tar_loop next (fun _ => true) true true (tar_fuel 1300) 1300 0 = Err /\
+  tar_loop next (fun r => negb (r =? 512)%N) true true (tar_fuel 1536) 1536 0 = Err.
+Proof.
+  cbn zeta. split; [|vm_compute; repeat split].
+  intros n n'. destruct (n =? 0)%N; [discriminate|]. destruct (n <? 512)%N eqn:E; [discriminate|].
+  intro H. inversion H. apply N.ltb_ge in E. unfold tar_block. lia.
+Qed.
+
 (* non-vacuity *)
 Example c15_member_kinds_example :
   expand_apk [MPlain; MJunk] false = Err /\ expand_apk [MPlain; MZero; MJunk] false = Ok false /\
